@@ -8,6 +8,9 @@ import time
 VERIF = os.path.dirname(os.path.dirname(os.path.abspath(__file__)))
 KNOWN = os.path.join(VERIF, "known_findings.json")
 EVID = os.path.join(VERIF, "evidence")
+if os.environ.get("TSRUN_REPO", "/repo").rstrip("/") != "/repo":
+    # a run against a scratch copy (seed evaluation) must not overwrite the evidence of /repo
+    EVID = os.path.join(os.environ.get("TMPDIR", "/tmp"), "verif-evidence-scratch")
 
 
 def load_known():
